@@ -274,3 +274,17 @@ def run_replay_file(path: str) -> int:
         return 3
     print("not reproduced on this tree")
     return 0
+
+
+def try_replay(script: str, timeout_s: float = 120.0) -> dict:
+    """Run a replay script against the real code (VERIF_REPO) in a fresh interpreter.
+    reproduced = the script raised AssertionError (the contract's postcondition is false on the real outcome)."""
+    import subprocess
+    env = dict(os.environ)
+    env["PYTHONPATH"] = str(REPO) + os.pathsep + str(VERIF) + os.pathsep + env.get("PYTHONPATH", "")
+    try:
+        r = subprocess.run([sys.executable, "-c", script], env=env, capture_output=True, text=True, timeout=timeout_s)
+    except subprocess.TimeoutExpired:
+        return {"reproduced": False, "script": script, "output": "timeout"}
+    out = (r.stdout + r.stderr)[-1500:]
+    return {"reproduced": r.returncode != 0 and "AssertionError" in r.stderr, "script": script, "output": out}
